@@ -418,6 +418,52 @@ class CeilFloor(Sub):
         return None
 
 
+SMALL_SIGS = [1e-05, 2.5e-05, 1e-06, 0.0001, 0.00025, -1e-05]
+SMALL_NUMS = [0.000234, 1.234567, 0.0000777, 2.675, 12345.678, 0.5, 0.1, 3, -0.000234, -1.234567, -2.675]
+
+
+class CeilFloorSmall(Sub):
+    name = 'c17.ceiling_floor_small'
+    rule = ('CEILING/FLOOR with significances below 0.001 (1e-5, 2.5e-5, 1e-6, ... whose repr switches to exponent '
+            'notation) on 11 numbers of the same sign: the result is a multiple of the significance no more than one unit '
+            'from the adjacent multiple on the documented side (float noise in number/significance may cost one unit, '
+            'nothing more); non-trivial = all')
+    min_cases = 50
+    min_nontrivial = 50
+
+    def cases(self, tier, unit):
+        for fn in ('CEILING', 'FLOOR'):
+            for i in range(len(SMALL_SIGS)):
+                for j in range(len(SMALL_NUMS)):
+                    yield [fn, i, j]
+
+    def check(self, env, case):
+        fn, i, j = case
+        sg, x = SMALL_SIGS[i], SMALL_NUMS[j]
+        if (x > 0) != (sg > 0):
+            return None
+        env.nt()
+        o = env.evo('%s(xn,xs)' % fn, {'xn': x, 'xs': sg})
+        r = getnum(o)
+        a = abs(sg)
+        bad = None
+        if r is None:
+            bad = 'not a number'
+        else:
+            q = r / a
+            if abs(q - round(q)) > 1e-6 * max(1.0, abs(q)):
+                bad = 'not a multiple of the significance'
+            elif abs(r - x) > 2 * a * (1 + 1e-9):
+                bad = 'more than two units away from the number'
+            elif fn == 'CEILING' and abs(r) < abs(x) - a * 1.000001:
+                bad = 'more than a unit below the number in magnitude'
+            elif fn == 'FLOOR' and abs(r) > abs(x) + a * 1.000001:
+                bad = 'more than a unit above the number in magnitude'
+        if bad:
+            return fail('%s(xn,xs) with xn=%r, xs=%r gives %r: %s' % (fn, x, sg, o, bad), 'adjacent multiple', o)
+        return None
+
+
 def parity_target(fn, x):
     """nearest even/odd integer at or beyond x away from zero (0 counts as non-negative)."""
     want = 0 if fn == 'EVEN' else 1
@@ -1006,5 +1052,5 @@ class ComplexParts(Sub):
         return out
 
 
-SUBS = [Rounding(), CeilFloor(), IntParitySign(), QuotientMod(), Factorials(), HexRoundTrip(), BaseDecimal(),
+SUBS = [Rounding(), CeilFloor(), CeilFloorSmall(), IntParitySign(), QuotientMod(), Factorials(), HexRoundTrip(), BaseDecimal(),
         BaseErrors(), Roman(), ComplexParts()]
